@@ -20,7 +20,7 @@ func init() {
 	core.Register(&core.Simple{
 		Id: "C13", Lvl: "exploration", Quick: 200, Thorough: 5000, PerBatch: 50, Width: 16, Timeout: 1500,
 		RuleText: "roster histories: 20-45 steps over 3-8 clients (connect with either login flow, agreed with options/auto-reply, name/icon/option changes, privilege changes of a logged-in user's account by an administrator, disconnects, private messages); every client folds the user-change/user-left notifications it receives into the list it fetched; after every step at quiescence each folded roster must equal a fresh user-list reply restricted to users that completed login, and the reference model (id, name, icon, flags); private messages must reach exactly the addressed id and honour refuse flag / automatic reply. One long history per run keeps K clients logged in while more than 70,000 further connections log in and leave on the same server (the 16-bit id space wraps): at checkpoints all live ids must be pairwise distinct, each live client found under exactly one id, and a private message to each long-lived id must reach only its holder. distinct = multiset of step kinds (histories) / checkpoint (long history); a stress batch lets logins (with an immediate list fetch) race disconnects while a hook-injected delay at the outbox holds user-left notifications in flight, then compares every survivor's folded roster with a fresh list. non-trivial = history has a privilege or name change after others fetched their lists",
-		Case: runCase,
+		Case:     runCase,
 		Extra: func(tier string, seed int64) []core.Batch {
 			n := 70000
 			if tier == "thorough" {
